@@ -85,7 +85,7 @@ func (cap *commandArgParser) parseOneInput(arg *redisArg, argIndex int, started 
 		pms = PARSE_MULTI_VALUE
 	}
 
-	if arg.Token != "" && (!started || !arg.Multiple) {
+	if arg.Token != "" && (!started || !arg.Multiple || arg.MultipleToken) {
 		keyword, valid := ival.toString()
 		if !valid {
 			return
